@@ -55,7 +55,11 @@ const DETAILS: &[Details] = &[
         target_os = "macos"
     ))]
     s!(SIGINFO, Ignore),
-    #[cfg(not(target_os = "haiku"))]
+    // The default action of SIGIO (alias SIGPOLL) is to terminate on Linux, unlike on the BSDs
+    // where it is discarded.
+    #[cfg(any(target_os = "linux", target_os = "android"))]
+    s!(SIGIO, Term),
+    #[cfg(not(any(target_os = "haiku", target_os = "linux", target_os = "android")))]
     s!(SIGIO, Ignore),
     // Can't override anyway, but...
     s!(SIGKILL, Term),
